@@ -70,7 +70,7 @@ def shards(tier):
 
 def required_counters(tier):
     return {
-        "calls.well_typed": 1000, "classes.constructions": 30, "joint_typechecker.calls": 5, "coroutine_protocol.scripts": 10, "how_called.calls": 12, "factory.calls": 18, "property_derivation.compared": 20, "signature_sources.targets": 4,
+        "calls.well_typed": 1000, "classes.constructions": 30, "joint_typechecker.calls": 5, "coroutine_protocol.scripts": 10, "how_called.calls": 12, "factory.calls": 18, "property_derivation.compared": 20, "mutating_bodies.calls": 8, "signature_sources.targets": 4,
         "calls.ill_typed": 300,
         "calls.non_binding": 300,
         "kind.def": 300,
@@ -859,6 +859,69 @@ def arm_property_derivation(rec):
                 return
 
 
+_MUTATE_SRC = '''
+import numpy as np
+from jaxtyping import Float, PyTree
+N = np.ndarray
+CALLS = []
+def flatten_(buf: Float[N, "rows cols"]):
+    CALLS.append("flatten_")
+    buf.shape = (buf.size,)
+def extend_(acc: list[Float[N, "n"]], item: Float[N, "n"]):
+    CALLS.append("extend_")
+    acc.append(np.zeros((item.shape[0] + 1,), dtype="float32"))
+    return len(acc)
+def retag_(tree: PyTree[Float[N, "k"], "T"], other: PyTree[Float[N, "k"], "T"]):
+    CALLS.append("retag_")
+    tree["extra"] = np.zeros((1,), dtype="float32")
+def cast_(x: Float[N, "a"], out: dict):
+    CALLS.append("cast_")
+    out["x"] = x
+    x.dtype = "int32"
+    return out
+'''
+
+
+def arm_bodies_that_change_their_arguments(rec):
+    """functions WITHOUT a return annotation whose (well-typed) arguments the body updates in place - in-place reshape,
+    appending to a list argument, adding an entry to a dict argument, reinterpreting the dtype: nothing is annotated on
+    the way out, so the decorated function returns what the body returned, having run it once"""
+    import beartype
+    import typeguard
+
+    from jaxtyping import jaxtyped
+
+    def A(*shape):
+        return np.zeros(shape, dtype="float32")
+
+    mk_args = {
+        "flatten_": lambda: (A(2, 3),),
+        "extend_": lambda: ([A(3)], A(3)),
+        "retag_": lambda: ({"w": A(2)}, {"w": A(2)}),
+        "cast_": lambda: (A(4), {}),
+    }
+    for cname, tc in (("typeguard", typeguard.typechecked), ("beartype", beartype.beartype)):
+        for fname, mk in mk_args.items():
+            ns = {}
+            real.exec_src(_MUTATE_SRC, ns)
+            plain = ns[fname]
+            args = mk()
+            want = ("ret", repr(plain(*args)), [repr(a)[:80] for a in args])
+            ns2 = {}
+            real.exec_src(_MUTATE_SRC, ns2)
+            deco = jaxtyped(typechecker=tc)(ns2[fname])
+            args2 = mk()
+            try:
+                got = ("ret", repr(deco(*args2)), [repr(a)[:80] for a in args2])
+            except BaseException as e:  # noqa
+                got = ("exc", type(e).__name__, str(e)[:150])
+            rec.count("mutating_bodies.calls")
+            rec.case(("mutating-body", cname, fname), True)
+            if got != want or ns2["CALLS"] != ns["CALLS"]:
+                rec.violation("well-typed-differs", {"checker": cname, "function": fname}, f"[{cname}] {fname} (no return annotation, body updates an argument in place): plain {want}, body ran {ns['CALLS']}; decorated {got}, body ran {ns2['CALLS']}", mechanism="body-that-changes-its-arguments-differs")
+                return
+
+
 def arm_signature_sources(rec):
     """what is checked is the callable's SIGNATURE (inspect.signature follows __wrapped__ and __call__), wherever the
     annotations physically live: a wrapper that only sets __wrapped__, a callable object (equinox Module without
@@ -952,6 +1015,7 @@ def run_shard(rec, seed, shard, tier):
         arm_signature_sources(rec)
         real.error_formatting_probe(rec, "C07")
         arm_property_derivation(rec)
+        arm_bodies_that_change_their_arguments(rec)
     for k in range(CASES[tier]):
         key = f"{seed}/C07/{shard['i']}/{k}"
         run_case(rec, random.Random(key), rngkey=key)
